@@ -429,3 +429,426 @@ Proof.
   destruct (IH (fst (dstep repaired o s)) (gf_step repaired o s H)) as [C D].
   split; [exact C|]. now rewrite D.
 Qed.
+
+(* ------------------------------------------------------------------------------------------ *)
+(** * Invariants of the values: ticks ascending, intervals positive, alias only on 1-D numeric arrays *)
+
+Definition desc_ok (rank : nat) (ty : dtype) (d : dimdesc) : bool :=
+  match d with
+  | DSampled x _ _ _ => fgt x fzero
+  | DRange t _ _ => ascending t
+  | DAlias => Nat.leb rank 1 && is_numeric ty
+  | _ => true
+  end.
+
+Definition all_ok (s : state) : Prop :=
+  Forall (fun p => desc_ok (a_rank s) (a_ty s) (snd p) = true) (dims s).
+
+Lemma lookup_in : forall m k d, lookup k m = Some d -> In (k, d) m.
+Proof.
+  induction m as [|[k' d'] m IH]; intros k d H; [discriminate|].
+  cbn [lookup] in H. destruct (Z.eqb_spec k' k).
+  - inversion H. subst. now left.
+  - right. now apply IH.
+Qed.
+
+Lemma lookup_ok : forall s k d, all_ok s -> lookup k (dims s) = Some d -> desc_ok (a_rank s) (a_ty s) d = true.
+Proof.
+  intros s k d A H. apply lookup_in in H. unfold all_ok in A. rewrite Forall_forall in A. exact (A _ H).
+Qed.
+
+Lemma Forall_update : forall (P : Z * dimdesc -> Prop) k d m,
+  Forall P m -> (forall k', P (k', d)) -> Forall P (update k d m).
+Proof.
+  intros P k d m H Hd. unfold update. induction H; cbn [map]; constructor; auto.
+  destruct (fst x =? k); auto.
+Qed.
+
+Lemma ok_step : forall o s, gap_free (dims s) -> all_ok s -> all_ok (fst (dstep repaired o s)).
+Proof.
+  intros o s H A.
+  destruct o; cbn [dstep]; unfold_ops; cbv zeta; rep_simpl;
+    rewrite ?(create_group_next s H);
+    try (destruct (0 <? count s) eqn:E0; [|rewrite ?(create_group_first s H E0)]);
+    unfold ticks_ok, interval_ok, unit_bad, append_offset in *; rep_simpl;
+    rewrite ?delete_all_count by assumption;
+    crush; state_simpl; try exact A.
+  all: repeat match goal with A' : all_ok ?s', B : lookup _ (dims ?s') = Some _ |- _ =>
+               apply (lookup_ok s' _ _ A') in B; cbn [desc_ok] in B end.
+  all: unfold all_ok in *; state_simpl.
+  all: try (apply Forall_app; split; [assumption|]; constructor; [|constructor]; cbn [snd desc_ok]).
+  all: try (apply Forall_update; [assumption|]; intros; cbn [snd desc_ok]).
+  all: try constructor.
+  all: try reflexivity; try assumption.
+  all: try (apply andb_true_intro; split; [apply Nat.leb_le; apply Nat.ltb_ge; assumption | assumption]).
+Qed.
+
+Lemma rank_ty_step : forall b o s, a_rank (fst (dstep b o s)) = a_rank s /\ a_ty (fst (dstep b o s)) = a_ty s /\ frames (fst (dstep b o s)) = frames s.
+Proof.
+  intros b o s. destruct o; cbn [dstep]; unfold_ops; cbv zeta; crush; state_simpl; auto.
+Qed.
+
+Theorem desc_ok_run : forall ops s, gap_free (dims s) -> all_ok s -> all_ok (dfinal repaired ops s).
+Proof.
+  induction ops as [|o r IH]; intros s H A; [exact A|].
+  rewrite dfinal_cons. apply IH; [now apply gf_step|now apply ok_step].
+Qed.
+
+(* ------------------------------------------------------------------------------------------ *)
+(** * A rejected dimension call leaves no trace (repaired behaviour) *)
+
+Definition dimension_op (o : op) : Prop := match o with AData _ => False | _ => True end.
+
+Theorem rejected_no_trace : forall o s e, gap_free (dims s) -> dimension_op o ->
+  snd (dstep repaired o s) = Err e -> fst (dstep repaired o s) = s.
+Proof.
+  intros o s e H D.
+  destruct o; try (exfalso; exact D); cbn [dstep]; unfold_ops; cbv zeta; rep_simpl;
+    rewrite ?(create_group_next s H);
+    try (destruct (0 <? count s) eqn:E0; [|rewrite ?(create_group_first s H E0)]);
+    unfold unit_bad in *;
+    crush; cbn [fst snd]; intros X; try discriminate X; reflexivity.
+Qed.
+
+(* ------------------------------------------------------------------------------------------ *)
+(** * deleteDimensions, reopen *)
+
+Theorem delete_leaves_none : forall b s, gap_free (dims s) -> ro s = false ->
+  dstep b DeleteDims s = (with_dims s [], Ok (ABool true)).
+Proof.
+  intros b s H R. cbn [dstep]. unfold delete_dims. rewrite R. now rewrite delete_all_count.
+Qed.
+
+Theorem reopen_identity : forall b r s,
+  snd (dstep b (Reopen r) s) = Ok ADone /\
+  dobserve (fst (dstep b (Reopen r) s)) = dobserve s /\
+  dims (fst (dstep b (Reopen r) s)) = dims s /\
+  abs (fst (dstep b (Reopen r) s)) = mkS (map snd (dims s)) (a_label s) (a_unit s) (a_data s) (a_ty s) (a_rank s) (frames s) r.
+Proof. intros. cbn [dstep]. unfold reopen. cbn [fst snd]. repeat split; reflexivity. Qed.
+
+(* ------------------------------------------------------------------------------------------ *)
+(** * The alias mirrors its array, both directions *)
+
+(** reading through the dimension gives the array's label, unit and data *)
+Theorem alias_reads : forall s, dobs_of (a_label s) (a_unit s) (data_dbl s) (frames s) DAlias
+                               = ORange true (a_label s) (a_unit s) (data_dbl s).
+Proof. reflexivity. Qed.
+
+(** writing through the dimension lands in the array (any behaviour) *)
+Theorem alias_writes : forall b s i, lookup i (dims s) = Some DAlias -> ro s = false ->
+  (forall v, sempty v = false -> dstep b (RLabel i (Some v)) s = (with_label s (Some v), Ok ADone)) /\
+  (forall v, sempty v = false -> is_si v = true -> dstep b (RUnit i (Some v)) s = (with_unit s (Some v), Ok ADone)) /\
+  (forall t vs, ticks_ok b t = true -> from_dbls (a_ty s) t = Ok vs -> dstep b (RTicks i t) s = (with_data s vs, Ok ADone)) /\
+  (a_label (fst (dstep b (RLabel i None) s)) = None /\ snd (dstep b (RLabel i None) s) = Ok ADone) /\
+  (a_unit (fst (dstep b (RUnit i None) s)) = None /\ snd (dstep b (RUnit i None) s) = Ok ADone).
+Proof.
+  intros b s i L R. cbn [dstep]. unfold r_label, r_unit, r_ticks, with_dim, rm, wr. rewrite L, R. cbn [kind_of kind_eqb].
+  repeat split.
+  - intros v E. now rewrite E.
+  - intros v E1 E2. now rewrite E1, E2.
+  - intros t vs E1 E2. now rewrite E1, E2.
+  - destruct (a_label s) eqn:E; cbn [fst]; auto.
+  - destruct (a_label s); reflexivity.
+  - destruct (a_unit s) eqn:E; cbn [fst]; auto.
+  - destruct (a_unit s); reflexivity.
+Qed.
+
+(** writes to the array are what the alias shows afterwards: the descriptor stays, the array field changes *)
+Theorem array_writes_seen : forall b s i, lookup i (dims s) = Some DAlias -> ro s = false ->
+  (forall v, sempty v = false ->
+     let s' := fst (dstep b (ALabel (Some v)) s) in lookup i (dims s') = Some DAlias /\ a_label s' = Some v) /\
+  (forall v vs, Nat.eqb (a_rank s) 1 = true -> from_dbls (a_ty s) v = Ok vs ->
+     let s' := fst (dstep b (AData v) s) in lookup i (dims s') = Some DAlias /\ a_data s' = vs).
+Proof.
+  intros b s i L R. cbn [dstep]. unfold arr_label, arr_data, wr. rewrite R. split.
+  - intros v E. rewrite E. cbn. auto.
+  - intros v vs E1 E2. rewrite E1, E2. cbn. auto.
+Qed.
+
+(* ------------------------------------------------------------------------------------------ *)
+(** * The independent checker accepts every reachable observation *)
+
+Lemma f64_same_refl : forall x, f64_same x x = true.
+Proof.
+  destruct x; cbn [f64_same]; auto using eqb_reflx.
+  now rewrite eqb_reflx, Pos.eqb_refl, Z.eqb_refl.
+Qed.
+
+Lemma list_same_refl : forall l, list_same l l = true.
+Proof. induction l; cbn [list_same]; auto. now rewrite f64_same_refl. Qed.
+
+Lemma opt_str_eqb_refl : forall o, opt_str_eqb o o = true.
+Proof. destruct o; cbn; auto. apply String.eqb_refl. Qed.
+
+Definition q_all_ok (q : sstate) : Prop := Forall (fun d => desc_ok (q_rank q) (q_ty q) d = true) (q_dims q).
+
+Lemma keys_from_combine : forall (g : Z -> dimdesc -> option (Z * dobs)) l a,
+  keys_from (Z.of_nat a)
+    (map (fun p => (fst p, g (fst p) (snd p))) (combine (map Z.of_nat (seq a (List.length l))) l)) = true.
+Proof.
+  induction l as [|d l IH]; intros a; [reflexivity|].
+  cbn [List.length seq map combine keys_from fst]. rewrite Z.eqb_refl. cbn [andb].
+  replace (Z.of_nat a + 1) with (Z.of_nat (S a)) by lia. apply IH.
+Qed.
+
+Lemma spec_observation_ok : forall q, (1 <= q_rank q)%nat -> q_all_ok q -> dims_ok (s_observe q) = true.
+Proof.
+  intros q R A. unfold dims_ok, s_observe.
+  cbn [o_dims o_count o_zero o_next negb].
+  set (g := fun p : Z * dimdesc => (fst p, Some (fst p, dobs_of (q_label q) (q_unit q) (q_data_dbl q) (q_frames q) (snd p)))).
+  assert (Z1 : zrange (s_count q) = map Z.of_nat (seq 1 (List.length (q_dims q)))).
+  { unfold zrange, s_count, zlen. now rewrite Nat2Z.id. }
+  rewrite Z1.
+  repeat (apply andb_true_intro; split); auto.
+  - apply Z.eqb_eq. unfold s_count, zlen. rewrite map_length, combine_length, map_length, seq_length.
+    now rewrite Nat.min_id.
+  - exact (keys_from_combine (fun k d => Some (k, dobs_of (q_label q) (q_unit q) (q_data_dbl q) (q_frames q) d)) (q_dims q) 1).
+  - apply forallb_forall. intros x I. apply in_map_iff in I. destruct I as [[k d] [E I]]. subst x.
+    apply in_combine_r in I. unfold q_all_ok in A. rewrite Forall_forall in A. specialize (A d I).
+    unfold g, dim_ok. cbn [fst snd]. rewrite Z.eqb_refl. cbn [andb].
+    destruct d; cbn [dobs_of desc_ok] in *; auto.
+    cbn [o_label o_unit o_data]. rewrite !opt_str_eqb_refl. cbn [andb].
+    apply andb_prop in A. destruct A as [A1 A2]. apply Nat.leb_le in A1.
+    replace (q_rank q =? 1)%nat with true by (symmetry; apply Nat.eqb_eq; lia).
+    rewrite A2. cbn [andb]. apply list_same_refl.
+Qed.
+
+Lemma rank_ty_run : forall b ops s,
+  a_rank (dfinal b ops s) = a_rank s /\ a_ty (dfinal b ops s) = a_ty s /\ frames (dfinal b ops s) = frames s.
+Proof.
+  induction ops as [|o r IH]; intros s; [auto|].
+  rewrite dfinal_cons. destruct (IH (fst (dstep b o s))) as [A [B C]].
+  destruct (rank_ty_step b o s) as [A' [B' C']]. rewrite A, B, C. auto.
+Qed.
+
+Lemma all_ok_abs : forall s, all_ok s -> q_all_ok (abs s).
+Proof.
+  intros s A. unfold q_all_ok, all_ok in *. cbn [abs q_dims q_rank q_ty].
+  rewrite Forall_forall in *. intros d I. apply in_map_iff in I. destruct I as [p [E I]]. subst d. now apply A.
+Qed.
+
+Theorem observation_ok_run : forall ops s, gap_free (dims s) -> all_ok s -> (1 <= a_rank s)%nat ->
+  dims_ok (dobserve (dfinal repaired ops s)) = true.
+Proof.
+  intros ops s H A R.
+  rewrite observe_refines by now apply gap_free_run.
+  apply spec_observation_ok.
+  - cbn [abs q_rank]. destruct (rank_ty_run repaired ops s) as [E _]. now rewrite E.
+  - apply all_ok_abs. now apply desc_ok_run.
+Qed.
+
+Lemma init_gf : forall t rank len fs, gap_free (dims (dinit t rank len fs)).
+Proof. intros. exact I. Qed.
+Lemma init_ok : forall t rank len fs, all_ok (dinit t rank len fs).
+Proof. intros. constructor. Qed.
+
+(* ------------------------------------------------------------------------------------------ *)
+(** * What the specification means: the last accepted write to a descriptor is what it holds *)
+
+Lemma set_nth_same : forall {A} (l : list A) n x, (n < List.length l)%nat -> nth_error (set_nth n x l) n = Some x.
+Proof.
+  induction l as [|y l IH]; intros n x H; cbn [List.length] in H; [lia|].
+  destruct n; cbn [set_nth nth_error]; auto. apply IH. lia.
+Qed.
+
+Lemma set_nth_other : forall {A} (l : list A) n m x, n <> m -> nth_error (set_nth n x l) m = nth_error l m.
+Proof.
+  induction l as [|y l IH]; intros n m x H; [destruct n; reflexivity|].
+  destruct n, m; cbn [set_nth nth_error]; auto; try congruence.
+Qed.
+
+Lemma set_nth_length : forall {A} (l : list A) n x, List.length (set_nth n x l) = List.length l.
+Proof. induction l as [|y l IH]; intros n x; destruct n; cbn [set_nth List.length]; auto. Qed.
+
+Lemma s_set_zlen : forall i d l, zlen (s_set i d l) = zlen l.
+Proof. intros. unfold s_set. destruct ((1 <=? i) && (i <=? zlen l)); auto. unfold zlen. now rewrite set_nth_length. Qed.
+
+Theorem spec_set_get_same : forall i d l, 1 <= i <= zlen l -> s_get i (s_set i d l) = Some d.
+Proof.
+  intros i d l H. unfold s_get. rewrite s_set_zlen. unfold s_set.
+  destruct (Z.leb_spec 1 i), (Z.leb_spec i (zlen l)); try lia. cbn [andb].
+  apply set_nth_same. unfold zlen in *. lia.
+Qed.
+
+Theorem spec_set_get_other : forall i j d l, i <> j -> s_get j (s_set i d l) = s_get j l.
+Proof.
+  intros i j d l H. unfold s_get. rewrite s_set_zlen. unfold s_set.
+  destruct ((1 <=? i) && (i <=? zlen l)) eqn:E; auto.
+  destruct ((1 <=? j) && (j <=? zlen l)) eqn:F; auto.
+  apply set_nth_other. apply andb_prop in E, F. destruct E as [E1 E2], F as [F1 F2].
+  apply Z.leb_le in E1, E2, F1, F2. lia.
+Qed.
+
+Theorem spec_append_get_new : forall d l, s_get (zlen l + 1) (l ++ [d])%list = Some d.
+Proof.
+  intros. unfold s_get. rewrite zlen_app1. pose proof (zlen_nonneg l).
+  destruct (Z.leb_spec 1 (zlen l + 1)), (Z.leb_spec (zlen l + 1) (zlen l + 1)); try lia. cbn [andb].
+  replace (Z.to_nat (zlen l + 1 - 1)) with (List.length l) by (unfold zlen; lia).
+  rewrite nth_error_app2 by lia. now rewrite Nat.sub_diag.
+Qed.
+
+Theorem spec_append_get_old : forall j d l, j <= zlen l -> s_get j (l ++ [d])%list = s_get j l.
+Proof.
+  intros. unfold s_get. rewrite zlen_app1.
+  destruct (Z.leb_spec 1 j); cbn [andb]; auto.
+  destruct (Z.leb_spec j (zlen l + 1)), (Z.leb_spec j (zlen l)); try lia.
+  apply nth_error_app1. unfold zlen in *. lia.
+Qed.
+
+(** read-back through the storage-level model: an accepted setter is what [lookup] finds afterwards *)
+Lemma lookup_update_same : forall m k d d0, lookup k m = Some d0 -> lookup k (update k d m) = Some d.
+Proof.
+  induction m as [|[k' d'] m IH]; intros k d d0 H; [discriminate|].
+  cbn [lookup update map fst] in *. destruct (Z.eqb_spec k' k).
+  - cbn [lookup]. destruct (Z.eqb_spec k' k); [reflexivity|contradiction].
+  - cbn [lookup]. destruct (Z.eqb_spec k' k); [contradiction|]. now apply (IH k d d0).
+Qed.
+
+Lemma lookup_update_other : forall m k j d, k <> j -> lookup j (update k d m) = lookup j m.
+Proof.
+  induction m as [|[k' d'] m IH]; intros k j d H; [reflexivity|].
+  cbn [lookup update map fst]. destruct (Z.eqb_spec k' k).
+  - subst k'. cbn [lookup]. destruct (Z.eqb_spec k j); [contradiction|]. now apply IH.
+  - cbn [lookup]. destruct (Z.eqb_spec k' j); auto. now apply IH.
+Qed.
+
+Lemma lookup_app_new : forall m k d, lookup k m = None -> lookup k (m ++ [(k, d)])%list = Some d.
+Proof.
+  induction m as [|[k' d'] m IH]; intros k d H; cbn [app lookup] in *.
+  - now rewrite Z.eqb_refl.
+  - destruct (k' =? k); [discriminate|]. now apply IH.
+Qed.
+
+Lemma lookup_app_old : forall m k j d, lookup j m <> None -> lookup j (m ++ [(k, d)])%list = lookup j m.
+Proof.
+  induction m as [|[k' d'] m IH]; intros k j d H; cbn [app lookup] in *; [congruence|].
+  destruct (k' =? j); auto.
+Qed.
+
+(** a sampled dimension reads back interval, offset (negative and zero offsets too), unit and label as appended *)
+Theorem readback_sampled_append : forall s x l u off, gap_free (dims s) -> ro s = false ->
+  fgt x fzero = true -> unit_bad u = false ->
+  dstep repaired (AppendSampled x l u off) s =
+    (add_dim s (dims s) (count s + 1) (DSampled x (if fne off fzero then Some off else None) (opt_ne u) (opt_ne l)),
+     Ok (AIndex (count s + 1))) /\
+  lookup (count s + 1) (dims (fst (dstep repaired (AppendSampled x l u off) s))) =
+    Some (DSampled x (if fne off fzero then Some off else None) (opt_ne u) (opt_ne l)).
+Proof.
+  intros s x l u off H R X U. cbn [dstep]. unfold append_sampled. rep_simpl.
+  unfold interval_ok, append_offset. rep_simpl. rewrite X, U. cbn [negb andb].
+  rewrite (create_group_next s H), R. split; [reflexivity|]. cbn [fst]. unfold add_dim. cbn [dims with_dims].
+  apply lookup_app_new. rewrite lookup_gf by assumption. unfold count. rewrite <- (zlen_map snd (dims s)). apply s_get_next.
+Qed.
+
+Theorem readback_range_append : forall s t l u, gap_free (dims s) -> ro s = false ->
+  lempty t = false -> ascending t = true -> unit_bad u = false ->
+  dstep repaired (AppendRange t l u) s =
+    (add_dim s (dims s) (count s + 1) (DRange t (opt_ne u) (opt_ne l)), Ok (AIndex (count s + 1))).
+Proof.
+  intros s t l u H R E A U. cbn [dstep]. unfold append_range. rep_simpl. unfold ticks_ok. rep_simpl.
+  rewrite E, A, U. cbn [negb andb]. now rewrite (create_group_next s H), R.
+Qed.
+
+(** every offset given to the setter is kept: negative, zero, NaN *)
+Theorem readback_offset_setter : forall s i x o u l v, lookup i (dims s) = Some (DSampled x o u l) -> ro s = false ->
+  snd (dstep repaired (SOffset i (Some v)) s) = Ok ADone /\
+  lookup i (dims (fst (dstep repaired (SOffset i (Some v)) s))) = Some (DSampled x (Some v) u l) /\
+  (forall j, j <> i -> lookup j (dims (fst (dstep repaired (SOffset i (Some v)) s))) = lookup j (dims s)).
+Proof.
+  intros s i x o u l v L R. cbn [dstep]. unfold s_offset, with_dim, wr. rewrite L, R. cbn [kind_of kind_eqb fst snd].
+  unfold set_dim. cbn [dims with_dims]. repeat split.
+  - now apply (lookup_update_same _ _ _ _ L).
+  - intros j N. apply lookup_update_other. congruence.
+Qed.
+
+(* ------------------------------------------------------------------------------------------ *)
+(** * The code as pinned: computed witnesses ([..._refuted]) *)
+
+Definition w_frame : frame := mkFrame "f0" 2 [("name", "", NDArr.TString); ("freq", "Hz", NDArr.TDouble)].
+Definition w_init : state := dinit NDArr.TDouble 1 3 [w_frame].
+Definition d_m25 : F64 := ofME (-5) (-1).      (* -2.5 *)
+
+Definition is_ok_ans (r : res ans) : bool := match r with Ok _ => true | _ => false end.
+Definition offset_absent (s : state) (i : Z) : bool :=
+  match lookup i (dims s) with Some (DSampled _ None _ _) => true | _ => false end.
+Definition offset_present (s : state) (i : Z) : bool :=
+  match lookup i (dims s) with Some (DSampled _ (Some _) _ _) => true | _ => false end.
+
+(** unsorted ticks are accepted by appendRangeDimension: the observation fails the checker *)
+Lemma unsorted_append_refuted :
+  is_ok_ans (snd (dstep code_today (AppendRange [ofZ 3; ofZ 2; ofZ 1] "" "") w_init)) = true /\
+  dims_ok (dobserve (dfinal code_today [AppendRange [ofZ 3; ofZ 2; ofZ 1] "" ""] w_init)) = false /\
+  is_ok_ans (snd (dstep repaired (AppendRange [ofZ 3; ofZ 2; ofZ 1] "" "") w_init)) = false.
+Proof. vm_compute. repeat split; reflexivity. Qed.
+
+(** a sampling interval of -1 is accepted by appendSampledDimension *)
+Lemma interval_append_refuted :
+  is_ok_ans (snd (dstep code_today (AppendSampled (ofZ (-1)) "" "" fzero) w_init)) = true /\
+  dims_ok (dobserve (dfinal code_today [AppendSampled (ofZ (-1)) "" "" fzero] w_init)) = false /\
+  is_ok_ans (snd (dstep repaired (AppendSampled (ofZ (-1)) "" "" fzero) w_init)) = false.
+Proof. vm_compute. repeat split; reflexivity. Qed.
+
+(** a negative offset given to appendSampledDimension is dropped *)
+Lemma negative_offset_refuted :
+  is_ok_ans (snd (dstep code_today (AppendSampled (ofZ 1) "" "" d_m25) w_init)) = true /\
+  offset_absent (dfinal code_today [AppendSampled (ofZ 1) "" "" d_m25] w_init) 1 = true /\
+  offset_present (dfinal repaired [AppendSampled (ofZ 1) "" "" d_m25] w_init) 1 = true.
+Proof. vm_compute. repeat split; reflexivity. Qed.
+
+(** an invalid unit: the call throws, the descriptor stays *)
+Lemma invalid_unit_trace_refuted :
+  is_ok_ans (snd (dstep code_today (AppendRange [ofZ 1] "time" "spikes") w_init)) = false /\
+  count (fst (dstep code_today (AppendRange [ofZ 1] "time" "spikes") w_init)) = 1 /\
+  is_ok_ans (snd (dstep code_today (AppendSampled (ofZ 1) "time" "mV/" fzero) w_init)) = false /\
+  count (fst (dstep code_today (AppendSampled (ofZ 1) "time" "mV/" fzero) w_init)) = 1 /\
+  count (fst (dstep repaired (AppendRange [ofZ 1] "time" "spikes") w_init)) = 0.
+Proof. vm_compute. repeat split; reflexivity. Qed.
+
+(** a data frame of another block: the call throws, a descriptor without a frame stays *)
+Lemma foreign_frame_trace_refuted :
+  is_ok_ans (snd (dstep code_today (AppendFrame FForeign) w_init)) = false /\
+  count (fst (dstep code_today (AppendFrame FForeign) w_init)) = 1 /\
+  count (fst (dstep repaired (AppendFrame FForeign) w_init)) = 0.
+Proof. vm_compute. repeat split; reflexivity. Qed.
+
+(** NaN passes [interval <= 0.0] and std::is_sorted *)
+Lemma nan_refuted :
+  is_ok_ans (snd (dstep code_today (SInterval 1 f64_nan) (dfinal code_today [AppendSampled (ofZ 1) "" "" fzero] w_init))) = true /\
+  dims_ok (dobserve (dfinal code_today [AppendSampled (ofZ 1) "" "" fzero; SInterval 1 f64_nan] w_init)) = false /\
+  is_ok_ans (snd (dstep code_today (RTicks 1 [ofZ 2; f64_nan; ofZ 1]) (dfinal code_today [AppendRange [ofZ 1] "" ""] w_init))) = true /\
+  dims_ok (dobserve (dfinal code_today [AppendRange [ofZ 1] "" ""; RTicks 1 [ofZ 2; f64_nan; ofZ 1]] w_init)) = false /\
+  is_ok_ans (snd (dstep repaired (SInterval 1 f64_nan) (dfinal repaired [AppendSampled (ofZ 1) "" "" fzero] w_init))) = false /\
+  is_ok_ans (snd (dstep repaired (RTicks 1 [ofZ 2; f64_nan; ofZ 1]) (dfinal repaired [AppendRange [ofZ 1] "" ""] w_init))) = false.
+Proof. vm_compute. repeat split; reflexivity. Qed.
+
+(** deleteDimensions on a read-only file reports success and removes nothing *)
+Lemma readonly_delete_refuted :
+  is_ok_ans (snd (dstep code_today DeleteDims (dfinal code_today [AppendSet []; Reopen true] w_init))) = true /\
+  count (dfinal code_today [AppendSet []; Reopen true; DeleteDims] w_init) = 1 /\
+  is_ok_ans (snd (dstep repaired DeleteDims (dfinal repaired [AppendSet []; Reopen true] w_init))) = false.
+Proof. vm_compute. repeat split; reflexivity. Qed.
+
+(** hence a rejected call can leave a trace on the pinned tree *)
+Lemma rejected_no_trace_refuted :
+  exists o s e, gap_free (dims s) /\ dimension_op o /\ snd (dstep code_today o s) = Err e /\ fst (dstep code_today o s) <> s.
+Proof.
+  exists (AppendFrame FForeign), w_init, E_Runtime. split; [exact I|]. split; [exact I|]. split; [reflexivity|].
+  intros X. apply (f_equal count) in X. vm_compute in X. discriminate X.
+Qed.
+
+(** non-vacuity: a legal history through every kind of descriptor, setters, alias, delete, reopen *)
+Definition demo_ops : list op :=
+  [AppendSet ["a"; "b"]; AppendRange [ofZ 1; ofZ 2] "time" "ms"; AppendSampled (ofZ 2) "x" "mV" d_m25;
+   AppendFrameIdx (FOrd 0) 1; AppendFrameName (FOrd 0) "name"; AppendFrame (FOrd 0);
+   SOffset 3 (Some fzero); RTicks 2 [ofZ 3; ofZ 1]; RUnit 2 (Some "spikes"); TLabel 1 (Some "cond");
+   Reopen true; SLabel 3 (Some "no"); Reopen false; Count; DeleteDims; Count; AppendAlias; AData [ofZ 5; ofZ 7]; RLabel 1 (Some "tl"); Observe].
+
+Lemma demo_run :
+  map is_ok_ans (snd (drun repaired demo_ops w_init)) =
+    [true; true; true; true; true; true; true; false; false; true; true; false; true; true; true; true; true; true; true; true] /\
+  count (dfinal repaired (firstn 13 demo_ops) w_init) = 6 /\
+  count (dfinal repaired demo_ops w_init) = 1 /\
+  a_label (dfinal repaired demo_ops w_init) = Some "tl" /\
+  dims_ok (dobserve (dfinal repaired demo_ops w_init)) = true /\
+  offset_present (dfinal repaired (firstn 3 demo_ops) w_init) 3 = true.
+Proof. vm_compute. repeat split; reflexivity. Qed.
